@@ -75,6 +75,21 @@ CHECKS = {
                      'finding), only the descent is cut; the path-driven drivers select the declaration through get_element with the '
                      'defaulted schema path and report missing declarations. Correspondence of schema.find(path) with the governing '
                      'declaration is not decided.', note=NOTE),
+    'C09': dict(ref='DESIGN.md §2 C09', technique='type-resolved call graph (mypy expression types + class-hierarchy analysis) with '
+                                                    'observation-site detection, pickle/copy pairing of lock attributes, reaching definitions',
+                text='Partial: no function reachable from the on-demand builder enumerates, measures or copies a staged global map (so the '
+                     'outcome cannot depend on what happens to be built already), every lock/cache attribute is excluded from the pickled '
+                     'state and recreated under its own name, locations are compared in normalised form. Equality of outcomes for permuted '
+                     'or split schemas is not decided.',
+                note=NOTE + ' Additionally trusts the mypy type map for receiver classes; untyped receivers fall back to name-based '
+                            'class-hierarchy analysis (counted as imprecise in the evidence).'),
+    'C10': dict(ref='DESIGN.md §2 C10', technique='effect inventory over the type-resolved validation-time call graph compared with a reviewed '
+                                                    'table; dominance (scratch context reset); monotonicity of widening writes',
+                text='Partial: every write to state that outlives a validation call (attribute/subscript stores, del, mutating calls on '
+                     'persistent classes or module-level names) is one of the reviewed rows, the widening rows only add, the shared scratch '
+                     'context is cleared before each use, contexts are per call. That the allowed shared state is behaviour-neutral for '
+                     'all histories is not decided.',
+                note=NOTE + ' Additionally trusts the mypy type map; constructor edges of persistent classes are cut (fresh objects).'),
 }
 NOT_APPLICABLE = {
     'C06': 'equivalence of lazy and eager traversals quantifies over runtime chunkings of runtime trees; no structural necessary '
@@ -84,6 +99,4 @@ NOT_APPLICABLE = {
     'C16': 'set semantics of hand-written case splits over namespace constraints can only be decided by evaluating them over the '
            'enumerated domain (execution); shape rules are blind to the defect quoted in the property',
 }
-for _p in ('C09', 'C10'):
-    NOT_APPLICABLE.setdefault(_p, PENDING)
 FIX_COMMITS = ['0d39fae', 'ee7fbf0', 'ec74ff3', '0116491', '72bb2c6', '4feb9ab', '7a4e62d']
